@@ -12,7 +12,7 @@ CONF = {
         "level_note": "Trusted: the 10-line bit-serial reference in harness/fitmodel/base.go. Not assumed: that a multi-byte Write is the composition of single-byte steps (an independently written change, seeded/C14-c, broke exactly that for a 2^-64 class of inputs; the embedded-sums family was added for it, other coincidences of that kind could still escape).",
         "quick": {"checks": 3000, "timeout": 120},
         "thorough": {"checks": 300000, "timeout": 600},
-        "rule": "large-writes: a fixed list (lengths 256, 4096, 32768, 65536, 131072, 196608, 2^20, each -1/0/+1) and up to 60 (thorough 3000) drawn lengths up to 300000 or 2^k+-2, written in one Write and in pieces cut around 64 KiB offsets; the data is a xorshift stream given by its seed; non-trivial = a single write of 64 KiB or more. embedded-sums: 50 per rapid case of data || own CRC little-endian || 0-16 zero bytes || tail, 8-byte aligned or not, written whole or split once. enumerated: every (16-bit register state, input byte) pair, the state reached through the public API "
+        "rule": "every write case is also fed with io.Copy from readers that deliver the data whole, in pieces, byte by byte, and with the last piece together with io.EOF. large-writes: a fixed list (lengths 256, 4096, 32768, 65536, 131072, 196608, 2^20, each -1/0/+1) and up to 60 (thorough 3000) drawn lengths up to 300000 or 2^k+-2, written in one Write and in pieces cut around 64 KiB offsets; the data is a xorshift stream given by its seed; non-trivial = a single write of 64 KiB or more. embedded-sums: 50 per rapid case of data || own CRC little-endian || 0-16 zero bytes || tail, 8-byte aligned or not, written whole or split once. enumerated: every (16-bit register state, input byte) pair, the state reached through the public API "
                 "by a 2-byte prefix (bijection computed with the bit-serial reference); each pair is distinct and counted "
                 "non-trivial. generated: byte strings of 0..5000 bytes with 0..8 write boundaries (empty writes allowed) "
                 "and a Reset point; non-trivial = at least 3 write pieces, distinct by fingerprint of (data, cuts, reset). "
@@ -29,7 +29,7 @@ CONF["C02"] = {
     "level_note": "Trusted: harness/fitmodel (base type table from the FIT protocol document, interpreter), the hook's table export (which struct field a wire field lands in), the reading of 'compatible' = same type or an integer type of the same signedness that is not wider. Narrow fields carrying their own invalid pattern, latitude exactly +90 degrees and reference-less time situations are not decided (counted as undecided). Accumulated component destinations are compared by C18.",
     "quick": {"checks": 4000, "timeout": 300, "shrinktime": "10s"},
     "thorough": {"checks": 60000, "timeout": 1500, "shards": 8, "shrinktime": "30s"},
-    "rule": "a third of the streams are read through a drawn chunking; boundary: up to 40 (thorough 300) small streams, each decoded once per byte position with the decoder's 4096-byte buffer boundary slid over it by filler records. sweep: one single-field stream per (profile field of an observable message, compatible definition type incl. narrower same-signedness integers / array lengths 1, len-1, len, len+1, max / string sizes, byte order, boundary value) - distinct by construction, all non-trivial. streams: rapid GenStream (file type, 1..24 records over hosted, unhosted and unknown messages, compatible definitions, field permutations, unknown and developer fields, redefinitions, compressed headers); non-trivial = at least one big-endian multi-byte, narrower, negative signed, array, string, coordinate or time field; distinct by fingerprint of the stream. neighbours: same generator, unknown messages/fields/developer fields removed, digests of the remaining messages must be equal; non-trivial = something was removed.",
+    "rule": "one stream in ten consists of the messages that carry local times (activity, monitoring, monitoring_info, schedule) with a third of the local times at offset 0, +-1 s, whole and half hours from the reference; drawn chunkings include empty reads. a third of the streams are read through a drawn chunking; boundary: up to 40 (thorough 300) small streams, each decoded once per byte position with the decoder's 4096-byte buffer boundary slid over it by filler records. sweep: one single-field stream per (profile field of an observable message, compatible definition type incl. narrower same-signedness integers / array lengths 1, len-1, len, len+1, max / string sizes, byte order, boundary value) - distinct by construction, all non-trivial. streams: rapid GenStream (file type, 1..24 records over hosted, unhosted and unknown messages, compatible definitions, field permutations, unknown and developer fields, redefinitions, compressed headers); non-trivial = at least one big-endian multi-byte, narrower, negative signed, array, string, coordinate or time field; distinct by fingerprint of the stream. neighbours: same generator, unknown messages/fields/developer fields removed, digests of the remaining messages must be equal; non-trivial = something was removed.",
     "assumptions": ["fitmodel base type table and interpreter are correct readings of the FIT protocol", "hook table export is faithful (it copies the table entries)"],
 }
 
@@ -42,7 +42,7 @@ CONF["C01"] = {
     "level_note": "Trusted: recover() sees every panic on the calling goroutine (the library starts none); readers that violate io.Reader (0,nil forever) are outside the domain. Multi-field interactions are sampled, not enumerated.",
     "quick": {"checks": 6000, "timeout": 600, "shrinktime": "10s"},
     "thorough": {"checks": 40000, "shards": 8, "timeout": 3000, "shrinktime": "30s", "fuzz": {"target": "FuzzDecodeAll", "seconds": 150}},
-    "rule": "chain-carry: two-member chains whose second member uses a local type only the first defined, for every known message number and 4 unknown ones x local types {0,1,5,15} x 3 second-member shapes, through all six entry points; one mutant in eleven is a chain of 2-3 images whose later members are variants of the first (definitions stripped, file_id data record dropped, spec mutations). grid: file = header + file_id + one definition with one field (num, size, base byte) in one byte order + one data record + CRC; every cell is distinct; non-trivial = Decode accepted the definition and the field is a profile field (a value is stored by reflection). mutants: rapid-drawn structural mutations (sizes, base bytes, field numbers, message numbers, byte order, local types, duplicate/drop/swap/truncate records, developer flags, 255-field definitions, header fields) of generated streams and of repository .fit files, CRC/size repaired 70% of the time, plus raw byte strings; read through whole/1-byte/fixed/list/data+EOF chunkings; non-trivial = DecodeHeader accepts the input (it got past the header); distinct by fingerprint of the bytes.",
+    "rule": "one drawn chunking in six also returns empty reads ((0, nil) on every 2nd/3rd/5th/17th call). chain-carry: two-member chains whose second member uses a local type only the first defined, for every known message number and 4 unknown ones x local types {0,1,5,15} x 3 second-member shapes, through all six entry points; one mutant in eleven is a chain of 2-3 images whose later members are variants of the first (definitions stripped, file_id data record dropped, spec mutations). grid: file = header + file_id + one definition with one field (num, size, base byte) in one byte order + one data record + CRC; every cell is distinct; non-trivial = Decode accepted the definition and the field is a profile field (a value is stored by reflection). mutants: rapid-drawn structural mutations (sizes, base bytes, field numbers, message numbers, byte order, local types, duplicate/drop/swap/truncate records, developer flags, 255-field definitions, header fields) of generated streams and of repository .fit files, CRC/size repaired 70% of the time, plus raw byte strings; read through whole/1-byte/fixed/list/data+EOF chunkings; non-trivial = DecodeHeader accepts the input (it got past the header); distinct by fingerprint of the bytes.",
     "assumptions": ["recover() on the calling goroutine observes every panic of the library", "a decode of a <20 KiB input that takes more than 20 s is a hang"],
 }
 
@@ -55,7 +55,7 @@ CONF["C03"] = {
     "level_note": "Trusted: the exported container structs are the specification of what a file type holds (slice member = all in order, pointer member = last); File-level slots (FileId, FileCreator, TimestampCorrelation) take precedence over containers. Repeated file_id messages always carry the same type (changing it mid-stream is finding D13 under C07).",
     "quick": {"checks": 4000, "timeout": 300, "shrinktime": "10s"},
     "thorough": {"checks": 150000, "timeout": 1500, "shards": 4, "shrinktime": "30s"},
-    "rule": "sequences also use compressed-timestamp headers on local types 0-3 and unknown messages with 324-byte payloads. typebytes: each of the 256 file_id type bytes through Decode and NewFile, then all 17 accessors (distinct, all counted). pairs: each (file type, known message number) with 3 tagged messages of that type on two local types and both byte orders, interleaved with another hosted type. sequences: rapid-drawn 1..30 messages over a focus set of 3 hosted types plus other hosted, unhosted known and unknown messages, each tagged with its position in a marker field, on random local types and byte orders; non-trivial = at least 2 message types and a hosted type occurring at least twice; distinct by fingerprint of the sequence.",
+    "rule": "items may end in a zero-size tail (size-0 string field, size-0 developer field, developer flag without fields; the last item in 40% of the sequences). sequences also use compressed-timestamp headers on local types 0-3 and unknown messages with 324-byte payloads. typebytes: each of the 256 file_id type bytes through Decode and NewFile, then all 17 accessors (distinct, all counted). pairs: each (file type, known message number) with 3 tagged messages of that type on two local types and both byte orders, interleaved with another hosted type. sequences: rapid-drawn 1..30 messages over a focus set of 3 hosted types plus other hosted, unhosted known and unknown messages, each tagged with its position in a marker field, on random local types and byte orders; non-trivial = at least 2 message types and a hosted type occurring at least twice; distinct by fingerprint of the sequence.",
     "assumptions": ["exported container struct members are the routing specification", "marker fields are unsigned scalars outside component expansion so tags survive decoding unchanged (checked by C02)"],
 }
 
@@ -126,7 +126,7 @@ CONF["C11"] = {
     "level_note": "Trusted: harness stream layout (record end offsets) and reference interpreter; need(entry) = header size / end of first file_id record / frame / whole chain (+ clean EOF for faults). For offsets at or beyond need the call must succeed (reading of 'every entry point returns an error' that does not blame DecodeHeader for a cut in the data area).",
     "quick": {"checks": 10, "timeout": 400, "shrinktime": "10s"},
     "thorough": {"checks": 600, "timeout": 2400, "shards": 8, "shrinktime": "30s"},
-    "rule": "streams: each rapid case draws 1..3 generated streams (chained) and enumerates every offset 0..len x {cut, fault, fault-with-data} x 6 entry points; each (stream, offset, mode) is distinct and counted non-trivial; offsets are classified (inside a header, a definition, a data record, the file CRC, on a record boundary, on a chained file boundary, first byte of a later header). corpus: repository files <= 3000 bytes (thorough 60000) at every offset within +-3 of a record end, the first/last 16 bytes and a stride of 97.",
+    "rule": "fault modes: (0, err), (n>0, err), and (0, io.ErrUnexpectedEOF) - a reader whose own error value is io.ErrUnexpectedEOF; a fifth of the chunkings also return empty reads. streams: each rapid case draws 1..3 generated streams (chained) and enumerates every offset 0..len x {cut, fault, fault-with-data} x 6 entry points; each (stream, offset, mode) is distinct and counted non-trivial; offsets are classified (inside a header, a definition, a data record, the file CRC, on a record boundary, on a chained file boundary, first byte of a later header). corpus: repository files <= 3000 bytes (thorough 60000) at every offset within +-3 of a record end, the first/last 16 bytes and a stride of 97.",
     "assumptions": ["reference interpreter + layout give the set of records complete before an offset"],
 }
 
@@ -172,7 +172,7 @@ CONF["C18"] = {
     "level_note": "Trusted: harness/fitmodel/expand.go (component rules, message and event numbers of the FIT profile). Chained expansion compressed_speed_distance -> speed -> enhanced_speed is not asserted; a compressed_speed_distance that is not 3 bytes long and radar threat events are not decided. Open findings D10 (got must be exactly 0), D11 and K1 (got must equal an emulation of the 8-bit truncation and of the process-wide accumulator over this process's decode history) are excluded only when they match exactly.",
     "quick": {"checks": 2500, "timeout": 300, "shrinktime": "10s"},
     "thorough": {"checks": 80000, "timeout": 1800, "shards": 8, "shrinktime": "30s"},
-    "rule": "histories: 1..4 generated streams (file types activity, course, activity summary, segment; messages with components only; component sources/destinations favoured; event kinds biased to sport_point / gear changes) decoded in sequence in one process, each compared with the per-file model; non-trivial = a source with a bit above the low byte (or a distance high nibble), a rollover of an accumulated source, and at least 2 files in the history; distinct by fingerprint of the streams. fresh-process: the test binary re-executes itself and decodes one activity file with 3-7 records carrying all three accumulated sources as its first library call.",
+    "rule": "a quarter of the streams declare fields with narrower compatible base types. histories: 1..4 generated streams (file types activity, course, activity summary, segment; messages with components only; component sources/destinations favoured; event kinds biased to sport_point / gear changes) decoded in sequence in one process, each compared with the per-file model; non-trivial = a source with a bit above the low byte (or a distance high nibble), a rollover of an accumulated source, and at least 2 files in the history; distinct by fingerprint of the streams. fresh-process: the test binary re-executes itself and decodes one activity file with 3-7 records carrying all three accumulated sources as its first library call.",
     "assumptions": ["component rules as summarised in the property text; FIT profile numbers session=18 lap=19 record=20 event=21 segment_lap=142, sport_point=33, front/rear gear change=42/43"],
 }
 
@@ -235,7 +235,7 @@ CONF["C09"] = {
     "level_note": "Trusted: Go race detector (no false positives); the program keeps inputs independent by construction (each call builds its own reader/File). Campaign A draws only inputs that do not feed the package-level component accumulators: any race report there is a violation. Campaign B draws inputs that do; a report whose two access stacks both start in uint32Accumulator.accumulate / RecordMsg.expandComponents is finding K1, anything else is a violation.",
     "quick": {"checks": 8, "timeout": 600, "shrinktime": "20s"},
     "thorough": {"checks": 500, "timeout": 3000, "shrinktime": "60s"},
-    "rule": "inputs include the 20 rejected-at-each-stage inputs and the decodefault call kind of C08 (calls that fail inside the header overlap in almost every program). every program runs in a fresh worker process in which it is the first use of the library (the sequential baseline is computed afterwards); call kinds as in C08, including failing Encode calls and shared option values. each rapid case is one program: G in 2..16 goroutines, each 5..40 calls drawn from the 6 call kinds on pool inputs (campaign A: inputs without accumulating sources, B: with), released together by a barrier under a drawn GOMAXPROCS; all programs are counted non-trivial only if distinct by fingerprint; the class 'program with overlapping same-kind calls' (measured with per-call timestamps) shows how many actually overlapped.",
+    "rule": "focused: one program per input family (local timestamps, generated streams, rejected inputs, chains, repository files, accumulating streams) with all 8 goroutines on inputs of that family. inputs include the 20 rejected-at-each-stage inputs and the decodefault call kind of C08 (calls that fail inside the header overlap in almost every program). every program runs in a fresh worker process in which it is the first use of the library (the sequential baseline is computed afterwards); call kinds as in C08, including failing Encode calls and shared option values. each rapid case is one program: G in 2..16 goroutines, each 5..40 calls drawn from the 6 call kinds on pool inputs (campaign A: inputs without accumulating sources, B: with), released together by a barrier under a drawn GOMAXPROCS; all programs are counted non-trivial only if distinct by fingerprint; the class 'program with overlapping same-kind calls' (measured with per-call timestamps) shows how many actually overlapped.",
     "assumptions": ["race detector soundness for the executed schedules", "schedules are sampled by the Go scheduler"],
 }
 
@@ -244,10 +244,10 @@ CONF["C19"] = {
     "level": "exploration",
     "technique": "rapid-generated dependency-closed product-profile selections of the five bundled workbooks, run through the real fitgen command twice (xlsx and SDK-zip input); oracles: exit status, byte determinism, declared version, go/types type-check located in generated files, row-by-row comparison with an independent XML reading of the workbook",
     "level_text": "Generated search over product profiles: a drawn set of enabled rows is disabled, closed under the two dependency rules (component targets, sub-field reference fields) by re-enabling (construction, not rejection), written into a copy of the workbook by removing EXAMPLE cells, and the real command is run twice. The output must exist, be byte-identical across runs, declare the requested version, parse, type-check together with every hand-written library file without any error located in a generated file, and contain for every message exactly the enabled rows as struct fields in workbook order with _fields entries {position, number, type code, length} equal to an independent reading of the row, and nothing for disabled rows.",
-    "level_note": "Trusted: harness/wb (zip/XML reader independent of tealeg/xlsx), its reading of names, base types, array flags, lengths and kinds; go/types. 'Compiles together with the support code' is decided on the generated side only: even the stock workbooks do not build with today's file_types.go (it needs messages of SDK 21.115), so type errors located in hand-written files are counted, not judged. Flags -hrst, -timestamp, -test are not part of the property.",
+    "level_note": "Trusted: harness/wb (zip/XML reader independent of tealeg/xlsx), its reading of names, base types, array flags, lengths and kinds; go/types. 'Compiles together with the support code' is decided on the generated side only: even the stock workbooks do not build with today's file_types.go (it needs messages of SDK 21.115), so type errors located in hand-written files are counted, not judged. Flags -timestamp and -test are not part of the property; -hrst is exercised (it changes which rows count as enabled).",
     "quick": {"checks": 2, "timeout": 600, "shrinktime": "30s"},
     "thorough": {"checks": 40, "timeout": 3000, "shrinktime": "120s"},
-    "rule": "of the two runs on every selection the first writes into an empty directory and the second over existing, longer generated files (the repository's own, padded with comment lines to 1.5 MB); the outputs must be byte-identical. cover: 3 selections per workbook (row number mod 3, plus everything depending on a disabled row) that together disable every enabled row once; input forms xlsx + -sdk, SDK zip, SDK zip named for another release + -sdk. stock: the 5 workbooks x {xlsx with -sdk, FitSDKRelease zip}. selections: 8 per rapid case, each = workbook x mode (a few rows / a share of 5-60% of all rows / most of one message / rows involved in dependencies) closed under dependencies; non-trivial = at least one row disabled and at least one dependency re-enabled by the closure; distinct by fingerprint of (version, disabled rows).",
+    "rule": "a quarter of the drawn selections and one cover selection per workbook run with -hrst and the heart_rate_source_type rows disabled (the flag keeps those rows). of the two runs on every selection the first writes into an empty directory and the second over existing, longer generated files (the repository's own, padded with comment lines to 1.5 MB); the outputs must be byte-identical. cover: 3 selections per workbook (row number mod 3, plus everything depending on a disabled row) that together disable every enabled row once; input forms xlsx + -sdk, SDK zip, SDK zip named for another release + -sdk. stock: the 5 workbooks x {xlsx with -sdk, FitSDKRelease zip}. selections: 8 per rapid case, each = workbook x mode (a few rows / a share of 5-60% of all rows / most of one message / rows involved in dependencies) closed under dependencies; non-trivial = at least one row disabled and at least one dependency re-enabled by the closure; distinct by fingerprint of (version, disabled rows).",
     "assumptions": ["dependency model: component targets and sub-field reference fields of enabled rows (validated: single-row disabling of workbook 21.40 fails for exactly those rows)"],
 }
 
